@@ -16,6 +16,11 @@ CHECKS = {
          "Finite domain enumerated completely: all 530 settings; closure/inverse/identity/uniqueness decided on an exact model bound to the code by decoding every operation both ways; construction, default choice, lookup from full list (3 orders) and LATT+SYMM round trip executed on the real classes for every setting.",
          "Trusts the reference algebra in mc/ref/symm.py (integer matrices, translations in Z/12) and that sgdata.json is the table the library loads.",
          "2/C02"),
+ "C11": ("model_checking",
+         "complete enumeration of the 34,012,224-code space (thorough) / all rotations x boundary translations (quick), grammar-bounded spelling enumeration, lattice-offset enumeration, against an exact reference codec",
+         "Finite code space enumerated completely in the thorough tier (int and string round trips of every code against an independent decoder); every distinct tabulated operation x every spelling within 2 (quick) / 3 (thorough) deviations of the canonical form, x 125 lattice offsets x eps patterns, x three apply() forms in 7 cells.",
+         "The documented ternary/duodecimal packing is the specification; spellings outside the grammar (e.g. two translation terms in one component) are not covered; string-built operations echo their source spelling by design.",
+         "2/C11"),
 }
 
 ALL = ["C%02d" % i for i in range(1, 21)]
